@@ -38,6 +38,14 @@ CHECKS["C01"] = {
     "technique": "TLA+ protocol spec (DataShard.tla) model-checked by TLC; trace validation of real scheduled executions against the same spec (Trace_L1.tla)",
 }
 
+CHECKS["C02"] = {
+    "category": "model_checking",
+    "text": "TLC explores every interleaving of a reader's steps (pointer resolution, manifest list, manifests, data files, return) with writers performing multi-file transactions, deletes (manifest rewrites), multi-operation transactions and shared-handle commits, checking ReadIsSnapshot (what a read returns is the file set of one snapshot that was current between its start and its end) and ReadsMonotone (per handle, never backwards). Binding: the same scenarios run on the real library under the deterministic scheduler with every read API (scan, parallel scan, batch and record iteration, row_count, filtered/projected scan, checksum verification on/off); TLC validates each recorded trace against the same actions, requiring the rows an API returned to be exactly the files the model says that read observed.",
+    "design_ref": "DESIGN.md 6/C02",
+    "note": "Trusted: as C01. Bounded: 1-2 readers x 1-2 writers, <=2 operations each. pandas APIs not exercised (pandas absent). Pool workers of parallel scans are attributed to their reader, not individually scheduled. GC is not an actor here (C05/C06).",
+    "technique": "TLA+ protocol spec with reader actors model-checked by TLC (with action-coverage anti-vacuity); trace validation of real scheduled executions of every read API",
+}
+
 NOT_YET: dict = {}
 
 
